@@ -106,3 +106,119 @@ def gammaIncHalf (m : Nat) (x : Rat) : I :=
 def lchoose (n k : Nat) : I := I.logQ (UDist.chooseFast n k : Rat)
 
 end MV.Special
+
+namespace MV.Special
+open MV
+
+/-! ## General-parameter references (Stirling series for log Γ; power series for the
+regularised incomplete beta and gamma functions).  These enclosures rest on two textbook
+facts that are NOT formalised here: the Stirling series for log Γ(y), y > 0, is enveloping
+(consecutive partial sums bracket the value), and the hypergeometric / power series below
+with their geometric tail bounds.  They are cross-checked on every run against the
+independently derived integer and half-integer closed forms above. -/
+
+/-- B₂, B₄, …, B₂₄ -/
+def bernoulliEven : List Rat :=
+  [1/6, -1/30, 1/42, -1/30, 5/66, -691/2730, 7/6, -3617/510, 43867/798, -174611/330, 854513/138, -236364091/2730]
+
+def ln2pi : I := I.log (I.scale 2 I.pi)
+
+/-- log Γ(y) for y ≥ 20 by the Stirling series with 10 and 11 correction terms (bracketing) -/
+def lgammaBig (y : Rat) : I :=
+  let ly := I.logQ y
+  let base := I.add (I.sub (I.scale (y - 1 / 2) ly) (I.ofRat y)) (I.scale (1 / 2) ln2pi)
+  let term (k : Nat) : Rat :=      -- k = 1, 2, …: B_{2k} / (2k (2k−1) y^{2k−1})
+    bernoulliEven.getD (k - 1) 0 / (((2 * k) * (2 * k - 1) : Nat) : Rat) / I.ratPowNat y (2 * k - 1)
+  let s10 := (List.range 10).foldl (fun s i => s + term (i + 1)) (0 : Rat)
+  let s11 := s10 + term 11
+  I.add base (I.mk' (ratMin s10 s11) (ratMax s10 s11))
+
+/-- log Γ(x) for rational x > 0: shift up to ≥ 20 with Γ(x) = Γ(x+n)/∏_{i<n}(x+i) -/
+def lgammaI (x : Rat) : I :=
+  let n : Nat := if x ≥ 20 then 0 else (20 - x.floor).toNat
+  let y := x + (n : Rat)
+  let shift := (List.range n).foldl (fun (s : I) i => I.add s (I.logQ (x + (i : Nat)))) (I.ofRat 0)
+  I.sub (lgammaBig y) shift
+
+/-- log B(a,b) -/
+def lbetaI (a b : Rat) : I := I.sub (I.add (lgammaI a) (lgammaI b)) (lgammaI (a + b))
+
+/-- Σ_{n≥0} ∏_{j<n} (c+j) x /(d+j) in fixed point (terms decrease: ratio ≤ r < 1), with geometric tail.
+Numerators/denominators are rationals cleared to integers: ratio_n = (cn + n·cd) xn dd / ((dn + n·dd) xd cd). -/
+def hypSeries (c d x : Rat) : Option I :=
+  -- ratio_n = (c+n) x / (d+n)
+  let r0 := (c * x) / d
+  let r := ratMax x r0
+  if r ≥ 1 ∨ x ≤ 0 then none else
+  let one : Nat := I.scaleN
+  -- integer form of the ratio: q_n = (c+n) x / (d+n) = (cN + n cD) xN dD / ((dN + n dD) xD cD)
+  let cN := c.num.toNat; let cD := c.den; let dN := d.num.toNat; let dD := d.den
+  let xN := x.num.toNat; let xD := x.den
+  let rec go (fuel n : Nat) (s t : Nat) : Nat × Nat :=
+    match fuel with
+    | 0 => (s, t)
+    | fuel + 1 =>
+      if t ≤ 1 then (s, t) else
+      let num := (cN + n * cD) * xN * dD
+      let den := (dN + n * dD) * xD * cD
+      let t' := (t * num + den - 1) / den          -- ⌈t q_n⌉
+      if t' ≥ t then (s, t)                        -- rounding up no longer lets the term shrink: stop
+      else go fuel (n + 1) (s + t') t'
+  let (s, t) := go 200000 0 one one
+  let tail : Rat := (t : Rat) * r / (1 - r)
+  -- rounding slack: each of ≤ 200000 steps rounds up by < 1 unit, amplified by at most 1/(1−r)
+  some ⟨((s : Rat) - (200000 : Rat) / (1 - r)) / (one : Rat) |> ratMax 1, ((s : Rat) + tail + 1) / (one : Rat)⟩
+
+/-- regularised incomplete beta I_x(a,b) for rational 0 ≤ x ≤ 1, a, b > 0, given `lb` = an enclosure of log B(a,b) -/
+def betaRegIWith (lb : I) (x a b : Rat) : Option I :=
+  if x ≤ 0 then some (I.ofRat 0) else if x ≥ 1 then some (I.ofRat 1) else
+  let direct (x a b : Rat) : Option I :=
+    -- x^a (1−x)^b / (a B(a,b)) · Σ (a+b)_n/(a+1)_n x^n
+    match hypSeries (a + b) (a + 1) x with
+    | none => none
+    | some ser =>
+      let e := I.sub (I.add (I.scale a (I.logQ x)) (I.scale b (I.logQ (1 - x)))) lb
+      some (I.mul (I.scale (1 / a) (I.exp e)) ser)
+  if x < (a + 1) / (a + b + 2) then direct x a b
+  else (direct (1 - x) b a).map fun v => I.sub (I.ofRat 1) v
+
+/-- regularised incomplete beta I_x(a,b) for rational 0 ≤ x ≤ 1, a, b > 0 -/
+def betaRegI (x a b : Rat) : Option I := betaRegIWith (lbetaI a b) x a b
+
+/-- regularised lower incomplete gamma P(a,x), rational a > 0, x ≥ 0, given `lg` = an enclosure of log Γ(a+1):
+x^a e^{−x}/Γ(a+1) · Σ_{n≥0} x^n/((a+1)…(a+n)) -/
+def gammaRegIWith (lg : I) (a x : Rat) : Option I :=
+  if x ≤ 0 then some (I.ofRat 0) else
+  let one : Nat := I.scaleN
+  -- terms grow while x > a+n; stop when the term is ≤ 1 unit and the ratio ≤ 1/2
+  -- integer form: q_n = x / (a + n + 1) = xN aD / ((aN + (n+1) aD) xD)
+  let aN := a.num.toNat; let aD := a.den; let xN := x.num.toNat; let xD := x.den
+  let rec go (fuel n : Nat) (s t : Nat) : Nat × Nat × Nat :=
+    match fuel with
+    | 0 => (s, t, n)
+    | fuel + 1 =>
+      let num := xN * aD
+      let den := (aN + (n + 1) * aD) * xD
+      if t ≤ 2 ∧ 2 * num ≤ den then (s, t, n) else
+      let t' := (t * num + den - 1) / den
+      go fuel (n + 1) (s + t') t'
+  let (s, t, n) := go 100000 0 one one
+  let q := x / (a + ((n + 1 : Nat) : Rat))
+  if q > 1 / 2 then none else
+  let ser : I := ⟨ratMax 1 (((s : Rat) - (n + 2 : Nat)) / (one : Rat)), ((s : Rat) + 2 * (t : Rat) + 1) / (one : Rat)⟩
+  let e := I.sub (I.sub (I.scale a (I.logQ x)) (I.ofRat x)) lg
+  some (I.mul (I.exp e) ser)
+
+def gammaRegI (a x : Rat) : Option I := gammaRegIWith (lgammaI (a + 1)) a x
+
+/-- Student-t CDF for any rational ν > 0 through the incomplete beta function -/
+def tCDFgen (nu t : Rat) : Option I :=
+  if t == 0 then some (I.ofRat (1 / 2)) else
+  let x := nu / (nu + t * t)
+  match betaRegI x (nu / 2) (1 / 2) with
+  | none => none
+  | some b =>
+    let up := I.sub (I.ofRat 1) (I.scale (1 / 2) b)       -- CDF(|t|)
+    if t > 0 then some up else some (I.sub (I.ofRat 1) up)
+
+end MV.Special
